@@ -51,33 +51,33 @@ func c10Token(tok byte, N int) {
 func HarnessC10_TokDone()         { c10Token(byte(TDS_DONE), c10N(10, 12)) }
 func HarnessC10_TokDoneProc()     { c10Token(byte(TDS_DONEPROC), c10N(10, 12)) }
 func HarnessC10_TokDoneInProc()   { c10Token(byte(TDS_DONEINPROC), c10N(10, 12)) }
-func HarnessC10_TokEED()          { c10Token(byte(TDS_EED), c10N(18, 22)) }
-func HarnessC10_TokError()        { c10Token(byte(TDS_ERROR), c10N(12, 18)) }
-func HarnessC10_TokLoginAck()     { c10Token(byte(TDS_LOGINACK), c10N(12, 18)) }
+func HarnessC10_TokEED()          { c10Token(byte(TDS_EED), c10N(18, 20)) }
+func HarnessC10_TokError()        { c10Token(byte(TDS_ERROR), c10N(12, 14)) }
+func HarnessC10_TokLoginAck()     { c10Token(byte(TDS_LOGINACK), c10N(12, 14)) }
 func HarnessC10_TokMsg()          { c10Token(byte(TDS_MSG), c10N(6, 8)) }
-func HarnessC10_TokParamFmt()     { c10Token(byte(TDS_PARAMFMT), c10N(6, 12)) }
-func HarnessC10_TokParamFmt2()    { c10Token(byte(TDS_PARAMFMT2), c10N(8, 14)) }
-func HarnessC10_TokRowFmt()       { c10Token(byte(TDS_ROWFMT), c10N(7, 10)) }
-func HarnessC10_TokRowFmt2()      { c10Token(byte(TDS_ROWFMT2), c10N(8, 16)) }
-func HarnessC10_TokParams()       { c10Token(byte(TDS_PARAMS), c10N(8, 12)) }
-func HarnessC10_TokRow()          { c10Token(byte(TDS_ROW), c10N(8, 12)) }
-func HarnessC10_TokCapability()   { c10Token(byte(TDS_CAPABILITY), c10N(5, 8)) }
-func HarnessC10_TokEnvChange()    { c10Token(byte(TDS_ENVCHANGE), c10N(5, 10)) }
-func HarnessC10_TokLanguage()     { c10Token(byte(TDS_LANGUAGE), c10N(7, 10)) }
-func HarnessC10_TokOrderBy()      { c10Token(byte(TDS_ORDERBY), c10N(6, 10)) }
-func HarnessC10_TokOrderBy2()     { c10Token(byte(TDS_ORDERBY2), c10N(10, 14)) }
+func HarnessC10_TokParamFmt()     { c10Token(byte(TDS_PARAMFMT), c10N(6, 8)) }
+func HarnessC10_TokParamFmt2()    { c10Token(byte(TDS_PARAMFMT2), c10N(8, 10)) }
+func HarnessC10_TokRowFmt()       { c10Token(byte(TDS_ROWFMT), c10N(7, 9)) }
+func HarnessC10_TokRowFmt2()      { c10Token(byte(TDS_ROWFMT2), c10N(8, 10)) }
+func HarnessC10_TokParams()       { c10Token(byte(TDS_PARAMS), c10N(8, 10)) }
+func HarnessC10_TokRow()          { c10Token(byte(TDS_ROW), c10N(8, 10)) }
+func HarnessC10_TokCapability()   { c10Token(byte(TDS_CAPABILITY), c10N(5, 7)) }
+func HarnessC10_TokEnvChange()    { c10Token(byte(TDS_ENVCHANGE), c10N(5, 7)) }
+func HarnessC10_TokLanguage()     { c10Token(byte(TDS_LANGUAGE), c10N(7, 9)) }
+func HarnessC10_TokOrderBy()      { c10Token(byte(TDS_ORDERBY), c10N(6, 8)) }
+func HarnessC10_TokOrderBy2()     { c10Token(byte(TDS_ORDERBY2), c10N(10, 12)) }
 func HarnessC10_TokReturnStatus() { c10Token(byte(TDS_RETURNSTATUS), c10N(6, 8)) }
 func HarnessC10_TokLogout()       { c10Token(byte(TDS_LOGOUT), c10N(3, 5)) }
-func HarnessC10_TokDynamic()      { c10Token(byte(TDS_DYNAMIC), c10N(7, 12)) }
-func HarnessC10_TokDynamic2()     { c10Token(byte(TDS_DYNAMIC2), c10N(9, 14)) }
-func HarnessC10_TokCurDeclare()   { c10Token(byte(TDS_CURDECLARE), c10N(9, 12)) }
-func HarnessC10_TokCurDeclare3()  { c10Token(byte(TDS_CURDECLARE3), c10N(12, 16)) }
-func HarnessC10_TokCurInfo()      { c10Token(byte(TDS_CURINFO), c10N(9, 12)) }
-func HarnessC10_TokCurInfo3()     { c10Token(byte(TDS_CURINFO3), c10N(13, 16)) }
+func HarnessC10_TokDynamic()      { c10Token(byte(TDS_DYNAMIC), c10N(7, 9)) }
+func HarnessC10_TokDynamic2()     { c10Token(byte(TDS_DYNAMIC2), c10N(9, 11)) }
+func HarnessC10_TokCurDeclare()   { c10Token(byte(TDS_CURDECLARE), c10N(9, 11)) }
+func HarnessC10_TokCurDeclare3()  { c10Token(byte(TDS_CURDECLARE3), c10N(12, 14)) }
+func HarnessC10_TokCurInfo()      { c10Token(byte(TDS_CURINFO), c10N(9, 11)) }
+func HarnessC10_TokCurInfo3()     { c10Token(byte(TDS_CURINFO3), c10N(13, 15)) }
 func HarnessC10_TokCurOpen()      { c10Token(byte(TDS_CUROPEN), c10N(8, 10)) }
 func HarnessC10_TokCurFetch()     { c10Token(byte(TDS_CURFETCH), c10N(8, 10)) }
-func HarnessC10_TokCurUpdate()    { c10Token(byte(TDS_CURUPDATE), c10N(10, 14)) }
-func HarnessC10_TokCurDelete()    { c10Token(byte(TDS_CURDELETE), c10N(10, 14)) }
+func HarnessC10_TokCurUpdate()    { c10Token(byte(TDS_CURUPDATE), c10N(10, 12)) }
+func HarnessC10_TokCurDelete()    { c10Token(byte(TDS_CURDELETE), c10N(10, 12)) }
 func HarnessC10_TokUnknown()      { c10Token(0x01, c10N(6, 8)) }
 
 // (iv) packet level: an arbitrary 8-byte header (including Length < 8) followed
@@ -85,7 +85,7 @@ func HarnessC10_TokUnknown()      { c10Token(0x01, c10N(6, 8)) }
 func HarnessC10_PacketReadFrom() {
 	vfLoopBound(40)
 	vfUnwindIsViolation()
-	N := c10N(10, 20)
+	N := c10N(10, 12)
 	vfBound("stream-bytes", N)
 	L := vfInt("avail", 0, N)
 	st := &hStream{data: vfBytes("stream", N)[:L], end: vfPick("end", 0, 2), maxChunks: 3}
